@@ -7,7 +7,7 @@ _spec.loader.exec_module(_nodes)
 META = dict(
     engine="E-CHAIN",
     technique="Lean 4 proof (stability of record status under every operation but EndBlocker; analysis of ReleaseWaitingValidators and of the mature-queue loop over a snapshot of queue slices, using the queue-exactness invariant) + per-phase transition checking and payout accounting against the real PocketCoreApp",
-    level_text="Kernel-checked for every state satisfying the (proved) store invariant, hence for every step of every history: outside EndBlocker no operation changes a record's status or deletes a record; in an end-block a staked node keeps its status unless height % BlocksPerSession = 0 and it is in the waiting set at release time; begin-unstake is accepted only from operator/output for a staked node; finishing pays the full stake once from the pool to the output address and deletes the record; a record disappears only when due at the block time; after every end-block at time t no unstaking record with completion time ≤ t is left (first block at or after completion); a second queue entry for a paid node does nothing. Applications: begin-unstake only by the application itself (staked, unjailed); after the end blocker no queued unstaking application with completion ≤ block time is left (equality included); payout of the whole stake to the application's own address, once. Tie: histories with begin-unstake at arbitrary heights, UnstakingTime 0..30h and changes of it, block-time jumps up to 31h, jail/slash while unstaking; balances of all accounts and the pool are compared per end-block with the stakes of the records that disappeared.",
+    level_text="Kernel-checked for every state satisfying the (proved) store invariant, hence for every step of every history: outside EndBlocker no operation changes a record's status or deletes a record; in an end-block a staked node keeps its status unless height % BlocksPerSession = 0 and it is in the waiting set at release time; begin-unstake is accepted only from operator/output for a staked node; finishing pays the full stake once from the pool to the output address and deletes the record; a record disappears only when due at the block time; after every end-block at time t no unstaking record with completion time ≤ t is left (first block at or after completion); a second queue entry for a paid node does nothing. Counterexample theorem (reproduced on the real application, known finding unstaked-by-stale-waiting-entry): as a statement about causes, 'a staked node begins to unstake only on its own request or by the slashing/jailing rules' fails — a waiting entry left behind by an earlier, paid-out record of the same address (forced unstake while already unstaking) releases a fresh stake at the next session end; it holds for stakes of addresses that are not in the waiting set. Applications: begin-unstake only by the application itself (staked, unjailed); after the end blocker no queued unstaking application with completion ≤ block time is left (equality included); payout of the whole stake to the application's own address, once. Tie: histories with begin-unstake at arbitrary heights, UnstakingTime 0..30h and changes of it, block-time jumps up to 31h, jail/slash while unstaking; balances of all accounts and the pool are compared per end-block with the stakes of the records that disappeared.",
     level_note=_nodes.NOTE + " Application half: model lean/PocketModel/Ledger/Apps.lean (applications package); the 'nothing overdue' theorem for applications is stated under the hypothesis that every unstaking application is queued under its completion time (monitored on the implementation: app-unstaking-not-queued), payouts under 'the pool covers the stake' (C20).",
 )
 
